@@ -202,6 +202,9 @@ var layoutTableSets = [][]tableName{
 	{{nil, []byte("t")}, {nil, []byte("t2")}, {[]byte("ns"), []byte("t")}},
 	{{nil, []byte("ab")}, {nil, []byte("a")}, {[]byte("a"), []byte("b")}},
 	{{[]byte("n"), []byte("t")}, {[]byte("n"), []byte("t.x")}, {nil, []byte("n")}},
+	// same namespace, one qualifier a proper suffix / prefix of the other
+	{{[]byte("ns"), []byte("t")}, {[]byte("ns"), []byte("xt")}, {[]byte("ns"), []byte("tx")}},
+	{{[]byte("m"), []byte("events")}, {[]byte("m"), []byte("raw_events")}},
 }
 
 func randomLayout(rng *RNG) ([]desc, [][]byte, [][]byte) {
